@@ -967,7 +967,21 @@ func alnRandomCase(r *obs.Run, which string) {
 		id += "/wide-values"
 		r.Count("matrices_with_scores_beyond_32_bits", 1)
 	}
+	beyond53 := false
+	if rng.Intn(25) == 0 {
+		// match weights just above 2^53, odd: exact as integers, not as float64 (short sequences, so that sums stay
+		// far inside 64 bits)
+		for i := 1; i < aa.a.Len(); i++ {
+			M[i][i] = 1<<53 + 1 + 2*rng.Intn(50)
+		}
+		id += "/beyond-2^53"
+		beyond53 = true
+		r.Count("matrices_with_scores_beyond_53_bits", 1)
+	}
 	ln := func() int {
+		if beyond53 {
+			return 1 + rng.Intn(12)
+		}
 		switch rng.Intn(4) {
 		case 0:
 			return 1 + rng.Intn(8)
@@ -986,7 +1000,7 @@ func alnRandomCase(r *obs.Run, which string) {
 	}
 	x := gen(ln())
 	var y []byte
-	lopsided := rng.Intn(15) == 0 // one sequence a few letters, the other hundreds: gap runs of 200 and more
+	lopsided := !beyond53 && rng.Intn(15) == 0 // one sequence a few letters, the other hundreds: gap runs of 200 and more
 	if lopsided {
 		x = gen(1 + rng.Intn(3))
 	}
